@@ -7,15 +7,14 @@
     iterator invariant of [WalkProofs] (what has been delivered, what is still to come, parents
     first) and carries the state of the destination along.
 
-    Hypothesis [Hatime]: reading a file stamps its access time; for a file whose access time was
-    never set explicitly that changes nothing ([touched f = f]), which keeps the source literally
-    constant during the copy.  (With explicitly set access times the source differs afterwards in
-    exactly those stamps - covered by the correspondence, not by this theorem.) *)
+    Reading a file stamps its access time, so the source filesystem is not literally constant during the
+    copy; it keeps its SHAPE ([same_shape]: the same entries with the same types and bytes, hence - by
+    [SortNames] - the same listings), which is all the walk looks at. *)
 From stdpp Require Import gmap list sorting.
 From Coq Require Import NArith ZArith Lia.
 From VFS Require Import Core.Types Core.Prog Core.Calls Spec.Tree Base.MemFS Base.Handles Base.PhysFS Base.Embedded Base.Store
   Layer.VfsPath Proofs.ProgProofs Proofs.MemProofs Proofs.MemCalls Proofs.MemPublic Proofs.ConcProofs Proofs.Composite
-  Proofs.WalkProofs Proofs.CopyFile Proofs.OvlProofs Proofs.OvlList Proofs.OvlLife Proofs.OvlAppend.
+  Proofs.WalkProofs Proofs.CopyFile Proofs.OvlProofs Proofs.OvlList Proofs.OvlLife Proofs.OvlAppend Proofs.SortNames.
 
 Lemma absf_is_dir f : absf f = NDir <-> f_type f = Dir.
 Proof. unfold absf. destruct (f_type f); split; congruence. Qed.
@@ -26,7 +25,6 @@ Section CopyDir.
   Variable s1 : mstate.                     (* the source filesystem, behind v1 *)
   Hypothesis Hwf1 : wf s1.
   Variables (p p' : path).                  (* source directory, destination path (in the filesystem behind v0) *)
-  Hypothesis Hatime : forall y f, s1 !! y = Some f -> f_type f = File -> touched f = f.
 
   (** where an entry of the source subtree goes *)
   Definition tr (y : path) : path := p' ++ drop (length p) y.
@@ -73,14 +71,49 @@ Section CopyDir.
     rewrite tr_app. cbn. apply removelast_last.
   Qed.
 
-  (** the walk on the source: the same pure function as on a single filesystem *)
-  Lemma run_walk_find1 (s0 : mstate) hs todo : forall inner, Forall (is_dir s1) todo ->
-    run bhandler (walk_find v1 todo inner) (S2 s0 s1 hs) = (S2 s0 s1 hs, find_pure s1 todo inner).
+  (** the source while the loop runs: the same entries, types and bytes as at the start *)
+  Definition same_shape (sc : mstate) : Prop :=
+    (forall d, mem_children sc d = mem_children s1 d) /\
+    (forall q, f_type <$> (sc !! q) = f_type <$> (s1 !! q)) /\
+    (forall q, f_content <$> (sc !! q) = f_content <$> (s1 !! q)).
+
+  Lemma same_shape_refl : same_shape s1.
+  Proof. repeat split. Qed.
+
+  Lemma same_shape_dir sc d : same_shape sc -> is_dir s1 d -> is_dir sc d.
   Proof.
-    induction todo as [|d todo IH]; intros inner Hd; destruct inner as [|x inner]; cbn [walk_find find_pure];
+    intros (_ & Ht & _) (f & Hf & Hft). specialize (Ht d). rewrite Hf in Ht. cbn in Ht.
+    destruct (sc !! d) as [g|] eqn:Eg; [|discriminate]. injection Ht as Ht. exists g. split; [exact Eg|congruence].
+  Qed.
+
+  Lemma same_shape_lookup sc x f : same_shape sc -> s1 !! x = Some f ->
+    exists g, sc !! x = Some g /\ f_type g = f_type f /\ f_content g = f_content f.
+  Proof.
+    intros (_ & Ht & Hc) Hf. specialize (Ht x). specialize (Hc x). rewrite Hf in Ht, Hc. cbn in *.
+    destruct (sc !! x) as [g|] eqn:Eg; [|discriminate]. injection Ht as Ht. injection Hc as Hc. eauto.
+  Qed.
+
+  Lemma same_shape_touch sc x g : same_shape sc -> sc !! x = Some g -> f_type g = File ->
+    same_shape (<[x := touched g]> sc).
+  Proof.
+    intros (Hk & Ht & Hc) Hg Hgt. split; [|split].
+    - intros d. rewrite (mem_children_insert_same sc x g (touched g) d Hg). apply Hk.
+    - intros q. destruct (decide (q = x)) as [->|Hne].
+      + rewrite lookup_insert, <- Ht, Hg. cbn. now rewrite Hgt.
+      + rewrite lookup_insert_ne by congruence. apply Ht.
+    - intros q. destruct (decide (q = x)) as [->|Hne].
+      + rewrite lookup_insert, <- Hc, Hg. reflexivity.
+      + rewrite lookup_insert_ne by congruence. apply Hc.
+  Qed.
+
+  (** the walk on the source: the same pure function as on a single, unchanging filesystem *)
+  Lemma run_walk_find1 (s0 sc : mstate) hs todo : same_shape sc -> forall inner, Forall (is_dir s1) todo ->
+    run bhandler (walk_find v1 todo inner) (S2 s0 sc hs) = (S2 s0 sc hs, find_pure s1 todo inner).
+  Proof.
+    intros Hsh. induction todo as [|d todo IH]; intros inner Hd; destruct inner as [|x inner]; cbn [walk_find find_pure];
       try reflexivity.
     inversion Hd as [|? ? Hdd Hd']; subst.
-    rewrite run_bind, rd1, (listing_dir s1 d Hdd). now apply IH.
+    rewrite run_bind, rd1, (listing_dir sc d (same_shape_dir sc d Hsh Hdd)). rewrite (proj1 Hsh d). now apply IH.
   Qed.
 
   (** ** the destination while the loop runs: [s0i] is the destination filesystem with the (empty) target
@@ -161,26 +194,27 @@ Section CopyDir.
   Qed.
 
   (** ** the loop of copy_dir *)
-  Lemma copy_loop : forall n inner todo done cnt fuel sd hs,
+  Lemma copy_loop : forall n inner todo done cnt fuel sd sc hs,
     length (rest s1 inner todo) <= n -> n < fuel -> inv s1 p done inner todo ->
-    done ++ rest s1 inner todo ≡ₚ desc s1 p -> copied done sd ->
-    exists done' sd' hs',
-      run bhandler (copy_entries fuel v1 p v0 p' (mkWalker inner todo) cnt) (S2 sd s1 hs) =
-        (S2 sd' s1 hs', Ok (cnt + N.of_nat (length (rest s1 inner todo)))%N) /\
-      done' ≡ₚ desc s1 p /\ copied done' sd'.
+    done ++ rest s1 inner todo ≡ₚ desc s1 p -> copied done sd -> same_shape sc ->
+    exists done' sd' sc' hs',
+      run bhandler (copy_entries fuel v1 p v0 p' (mkWalker inner todo) cnt) (S2 sd sc hs) =
+        (S2 sd' sc' hs', Ok (cnt + N.of_nat (length (rest s1 inner todo)))%N) /\
+      done' ≡ₚ desc s1 p /\ copied done' sd' /\ same_shape sc'.
   Proof.
-    induction n as [|n IH]; intros inner todo done cnt fuel sd hs Hlen Hfuel Hinv Hperm Hcop;
+    induction n as [|n IH]; intros inner todo done cnt fuel sd sc hs Hlen Hfuel Hinv Hperm Hcop Hsh;
       (destruct fuel as [|fuel]; [lia|]); cbn [copy_entries]; unfold walk_next; cbn [w_todo w_inner];
-      rewrite !run_bind, (run_walk_find1 sd hs todo inner (proj1 Hinv));
+      rewrite !run_bind, (run_walk_find1 sd sc hs todo Hsh inner (proj1 Hinv));
       destruct (find_pure s1 todo inner) as [it [inner' todo']] eqn:Ef;
       destruct (find_inv s1 Hwf1 p done todo inner it inner' todo' Hinv Ef) as [[-> Hr]|(x & -> & Hr & Hi)].
-    - exists done, sd, hs. cbn. rewrite Hr in *. cbn. rewrite N.add_0_r, app_nil_r in *. auto.
+    - exists done, sd, sc, hs. cbn. rewrite Hr in *. cbn. rewrite N.add_0_r, app_nil_r in *. auto.
     - apply Permutation_length in Hr. unfold rest at 2 in Hr. cbn in Hr. lia.
-    - exists done, sd, hs. cbn. rewrite Hr in *. cbn. rewrite N.add_0_r, app_nil_r in *. auto.
+    - exists done, sd, sc, hs. cbn. rewrite Hr in *. cbn. rewrite N.add_0_r, app_nil_r in *. auto.
     - cbn [fst snd].
       destruct Hi as (Hd & Hex & Hpar & Hdone).
       inversion Hex as [|? ? [f Hf] Hex']; subst. inversion Hpar as [|? ? Hpx Hpar']; subst.
-      rewrite run_bind, md1, Hf. cbn [fst snd m_type mem_meta].
+      destruct (same_shape_lookup sc x f Hsh Hf) as (g & Hg & Hgt & Hgc).
+      rewrite run_bind, md1, Hg. cbn [fst snd m_type mem_meta].
       set (todo'' := if isd s1 x then x :: todo' else todo').
       assert (Hrest : rest s1 (x :: inner') todo' ≡ₚ x :: rest s1 inner' todo'').
       { unfold rest, todo''. destruct (decide (isd s1 x = true)) as [E|E].
@@ -208,47 +242,56 @@ Section CopyDir.
       assert (Hne : tr x <> []).
       { intros E. pose proof (tr_longer x Hbx) as Hl. rewrite E in Hl. cbn in Hl. lia. }
       assert (Hisd : isd s1 x = bool_decide (f_type f = Dir)) by exact (isd_type s1 x f Hf).
+      rewrite Hgt.
       destruct (f_type f) eqn:Et.
       + (* a file: stream copy into the destination *)
         assert (Htodo : todo'' = todo') by (unfold todo''; rewrite Hisd, bool_decide_eq_false_2 by discriminate; reflexivity).
         rewrite Htodo in *. cbn [run fst snd]. fold (tr x).
-        unfold bind_res at 1. rewrite run_bind, md1, Hf. cbn [run mem_meta m_type]. rewrite Et.
+        unfold bind_res at 1. rewrite run_bind, md1, Hg. cbn [run mem_meta m_type]. rewrite Hgt.
         destruct (copied_step done sd x f (fresh_file (f_content f)) Hb Hbx Hxnd Hcop Hf) as (Hfree & Hpd & Hcop');
           [unfold absf; cbn; rewrite Et; reflexivity|right; reflexivity|exact Hpx|].
-        unfold bind_res at 1. rewrite run_bind, (copy_file_across lg ft sd s1 hs x (tr x) f Hf Et Hne Hpd Hfree).
-        rewrite (Hatime x f Hf Et), (insert_id s1 x f Hf).
-        destruct (IH inner' todo' (x :: done) (cnt + 1)%N fuel _ (hs ++ [HClosed; HClosed]) Hlen' ltac:(lia) Hinv' Hperm' Hcop')
-          as (done' & sd' & hs' & Hrun & Hd' & Hc').
-        exists done', sd', hs'. split; [exact Hrun|]. split; [exact Hd'|exact Hc'].
+        unfold bind_res at 1. rewrite run_bind, (copy_file_across lg ft sd sc hs x (tr x) g Hg Hgt Hne Hpd Hfree).
+        rewrite Hgc.
+        destruct (IH inner' todo' (x :: done) (cnt + 1)%N fuel _ (<[x := touched g]> sc) (hs ++ [HClosed; HClosed]) Hlen' ltac:(lia) Hinv' Hperm' Hcop'
+                     (same_shape_touch sc x g Hsh Hg Hgt))
+          as (done' & sd' & sc' & hs' & Hrun & Hd' & Hc' & Hs').
+        exists done', sd', sc', hs'. split; [exact Hrun|]. split; [exact Hd'|split; [exact Hc'|exact Hs']].
       + (* a directory *)
         assert (Htodo : todo'' = x :: todo') by (unfold todo''; rewrite Hisd, bool_decide_eq_true_2 by reflexivity; reflexivity).
         rewrite Htodo in *. cbn [run fst snd w_inner w_todo]. fold (tr x).
-        unfold bind_res at 1. rewrite run_bind, md1, Hf. cbn [run mem_meta m_type]. rewrite Et.
+        unfold bind_res at 1. rewrite run_bind, md1, Hg. cbn [run mem_meta m_type]. rewrite Hgt.
         destruct (copied_step done sd x f dirent Hb Hbx Hxnd Hcop Hf) as (Hfree & Hpd & Hcop');
           [unfold absf; cbn; rewrite Et; reflexivity|left; reflexivity|exact Hpx|].
-        unfold bind_res at 1. rewrite run_bind, (create_dir0 lg ft sd s1 hs (tr x) Hne Hpd Hfree).
-        destruct (IH inner' (x :: todo') (x :: done) (cnt + 1)%N fuel _ hs Hlen' ltac:(lia) Hinv' Hperm' Hcop')
-          as (done' & sd' & hs' & Hrun & Hd' & Hc').
-        exists done', sd', hs'. split; [exact Hrun|]. split; [exact Hd'|exact Hc'].
+        unfold bind_res at 1. rewrite run_bind, (create_dir0 lg ft sd sc hs (tr x) Hne Hpd Hfree).
+        destruct (IH inner' (x :: todo') (x :: done) (cnt + 1)%N fuel _ sc hs Hlen' ltac:(lia) Hinv' Hperm' Hcop' Hsh)
+          as (done' & sd' & sc' & hs' & Hrun & Hd' & Hc' & Hs').
+        exists done', sd', sc', hs'. split; [exact Hrun|]. split; [exact Hd'|split; [exact Hc'|exact Hs']].
   Qed.
 End CopyDir.
 
 (** ** copy_dir between two MemoryFS instances *)
+Lemma same_shape_abs (s1 sc : mstate) : same_shape s1 sc -> abs sc = abs s1.
+Proof.
+  intros (_ & Ht & Hc). apply map_eq. intros q. rewrite !abs_lookup. specialize (Ht q). specialize (Hc q).
+  destruct (sc !! q) as [g|], (s1 !! q) as [f|]; cbn in *; try discriminate; [|reflexivity].
+  injection Ht as Ht. injection Hc as Hc. unfold absf. now rewrite Ht, Hc.
+Qed.
+
 Theorem copy_dir_across (lg : list (nat * fscall)) (ft : option (nat * nat)) (s0 s1 : mstate) (hs : list hstate)
     (p p' : path) (fuel : nat) :
   wf s0 -> wf s1 -> is_dir s1 p ->
-  (forall y f, s1 !! y = Some f -> f_type f = File -> touched f = f) ->
   p' <> [] -> is_dir s0 (removelast p') -> s0 !! p' = None ->
   length (desc s1 p) < fuel ->
-  exists s0' hs',
+  exists s0' s1' hs',
     run bhandler (vp_copy_dir fuel v1 p v0 p') (mstore2 s0 s1 hs lg ft) =
-      (mstore2 s0' s1 hs' lg ft, Ok (N.of_nat (length (desc s1 p)))) /\
+      (mstore2 s0' s1' hs' lg ft, Ok (N.of_nat (length (desc s1 p)))) /\
+    abs s1' = abs s1 /\
     wf s0' /\ is_dir s0' p' /\
     (forall y, is_Some (s1 !! y) -> below p y -> absf <$> (s0' !! tr p p' y) = absf <$> (s1 !! y)) /\
     (forall q, q <> p' -> ~ below p' q -> s0' !! q = s0 !! q) /\
     (forall q, below p' q -> is_Some (s0' !! q) -> exists y, is_Some (s1 !! y) /\ below p y /\ q = tr p p' y).
 Proof.
-  intros Hwf0 Hwf1 Hpd Hat Hne Hpar Hfree Hfuel.
+  intros Hwf0 Hwf1 Hpd Hne Hpar Hfree Hfuel.
   set (s0i := <[p' := dirent]> s0).
   assert (Hwfi : wf s0i).
   { destruct Hwf0 as [Hr Hpc]. split; [apply root_dir_insert_ne; auto|]. apply pc_insert_dir; auto. }
@@ -270,10 +313,10 @@ Proof.
   { unfold rest. cbn [fdesc]. rewrite app_nil_r. symmetry. apply (desc_unfold s1 Hwf1). }
   assert (Hcop : copied s1 p p' s0i [] s0i).
   { split; [exact Hwfi|]. split; [intros y Hy; inversion Hy|reflexivity]. }
-  destruct (copy_loop lg ft s1 Hwf1 p p' Hat s0i Hidir Hiempty (length (desc s1 p)) (kids s1 p) [] [] 0%N fuel s0i hs)
-    as (done' & sd' & hs' & Hrun & Hd' & Hc'); [now rewrite Hrest|exact Hfuel|exact Hinv|exact Hrest|exact Hcop|].
+  destruct (copy_loop lg ft s1 Hwf1 p p' s0i Hidir Hiempty (length (desc s1 p)) (kids s1 p) [] [] 0%N fuel s0i s1 hs)
+    as (done' & sd' & sc' & hs' & Hrun & Hd' & Hc' & Hs'); [now rewrite Hrest|exact Hfuel|exact Hinv|exact Hrest|exact Hcop|apply same_shape_refl|].
   unfold kids in Hrun, Hrest. unfold s0i, dirent in Hrun. rewrite Hrun. rewrite (Permutation_length Hrest). cbn [run map_err]. rewrite N.add_0_l.
-  exists sd', hs'. split; [reflexivity|].
+  exists sd', sc', hs'. split; [reflexivity|]. split; [apply same_shape_abs, Hs'|].
   assert (Hb : Forall (below p) done').
   { apply Forall_forall. intros y Hy. rewrite Hd' in Hy. now apply elem_of_desc in Hy. }
   pose proof (copied_p' s1 p p' s0i Hidir done' sd' Hb Hc') as Hp'd.
